@@ -87,11 +87,12 @@ func applyEdits(es editSet, overlay map[string][]byte) (map[string][]byte, bool)
 }
 
 type normState struct {
-	pkgs    map[string]*packages.Package
-	fset    *token.FileSet
-	notes   []string
-	overlay map[string][]byte
-	check   *checkSpec
+	pkgs     map[string]*packages.Package
+	fset     *token.FileSet
+	notes    []string
+	overlay  map[string][]byte
+	check    *checkSpec
+	keepUsed map[types.Object]bool
 }
 
 func canonFuncSet() map[string]canonFunc {
@@ -446,7 +447,7 @@ func normalizeTree(repo string, extraEnv []string, overlay map[string][]byte) (m
 		good, goodOv = pkgs, cur
 		notes = append(notes, pendingNotes...)
 		pendingNotes = nil
-		ns := &normState{pkgs: mp, fset: fset, overlay: cur}
+		ns := &normState{pkgs: mp, fset: fset, overlay: cur, keepUsed: map[types.Object]bool{}}
 		es := ns.planRenames()
 		if len(es) == 0 {
 			var inl map[string]bool
